@@ -50,6 +50,20 @@ pub fn yield_point(site: &'static str) {
     }
 }
 
+/// A lock the caller could not get: true when a scheduling harness parked the caller and it is
+/// worth trying again, false when no harness is installed (the caller then blocks for real).
+#[inline]
+pub fn yield_blocked(site: &'static str) -> bool {
+    let f = { *YIELD.read().unwrap() };
+    match f {
+        Some(f) => {
+            f(site);
+            true
+        }
+        None => false,
+    }
+}
+
 #[inline]
 pub fn event(what: &str) {
     let f = { *EVENT.read().unwrap() };
